@@ -268,10 +268,13 @@ def run(rep):
     rep.extend(obs)
     if crashes:
         rep.crash = crashes[0]
+    from pgv.replayers import c09 as R
+    res = R.big_transaction_case()
+    rep.add_bounded(f"{P}/bounded.real_process_exit/{res['name']}", res['ok'], res['detail'], replay={'kind': 'c09.big'})
     if rep.tier == 'thorough':
-        from pgv.replayers import c09 as R
         for res in R.real_exit_cases():
             rep.add_bounded(f"{P}/bounded.real_process_exit/{res['name']}", res['ok'], res['detail'])
+
     keys = set(o['name'].split('/')[-1] for o in obs)
     rep.extra_cov.update({'exhaustive': True, 'evaluations': len(obs), 'distinct_nontrivial': len(keys),
                           'rule': 'every public write operation x every statement position k x {IntegrityError, InterfaceError, OperationalError, '
